@@ -38,6 +38,24 @@ func collectAssigns(w *World, pr *prover, fns []*ssa.Function) []fieldAssign {
 				}
 				fa, ok := st.Addr.(*ssa.FieldAddr)
 				if !ok {
+					// for _, p := range [...]*Item{&x.A, &x.B} { *p = G(*p) }: each field is assigned G of itself
+					if elems := pointerArrayElems(st.Addr); len(elems) > 0 {
+						if call, isCall := unwrap(st.Val).(*ssa.Call); isCall && len(call.Common().Args) >= 1 {
+							if ld, isLd := unwrap(call.Common().Args[0]).(*ssa.UnOp); isLd && ld.Op == token.MUL && ld.X == st.Addr {
+								for _, e := range elems {
+									efa, isFA := e.(*ssa.FieldAddr)
+									if !isFA {
+										continue
+									}
+									efp, okp := pr.structPath(efa, 0)
+									if !okp || len(efp.Idx) == 0 || efp.RootType.Obj().Pkg() != w.Types {
+										continue
+									}
+									out = append(out, fieldAssign{fn: f, instr: st, target: efp, helper: call.Common().StaticCallee(), sources: []FieldPath{efp}, guards: pr.dominatingGuards(b)})
+								}
+							}
+						}
+					}
 					continue
 				}
 				fp, ok := pr.structPath(fa, 0)
@@ -555,9 +573,31 @@ func checkC18(w *World, c *Check, tier string) {
 		if len(mf.Params) < 2 {
 			continue
 		}
-		toRoot, fromRoot := pr.canonicalRoot(mf.Params[0]), pr.canonicalRoot(mf.Params[1])
 		coveredBy[funcName(mf)] = map[string]bool{}
-		for _, a := range collectAssigns(w, pr, []*ssa.Function{mf}) {
+		// the merge function itself, plus package helpers it hands its own (to, from) pair to, in that order
+		// (copyActorCollections(to, from)): their stores count as the merge function's
+		type unit struct {
+			fn       *ssa.Function
+			to, from *ssa.Parameter
+		}
+		units := []unit{{mf, mf.Params[0], mf.Params[1]}}
+		for _, call := range callsIn(mf) {
+			h := call.Common().StaticCallee()
+			if h == nil || !w.InPkg(h) || h.Blocks == nil || merges[h] || h == mf || len(h.Params) != 2 || len(call.Common().Args) != 2 {
+				continue
+			}
+			if call.Common().Args[0] == ssa.Value(mf.Params[0]) && call.Common().Args[1] == ssa.Value(mf.Params[1]) && types.Identical(h.Params[0].Type(), mf.Params[0].Type()) {
+				units = append(units, unit{h, h.Params[0], h.Params[1]})
+			}
+		}
+		var allAssigns []fieldAssign
+		unitRoots := map[*ssa.Function][2]ssa.Value{}
+		for _, u := range units {
+			unitRoots[u.fn] = [2]ssa.Value{pr.canonicalRoot(u.to), pr.canonicalRoot(u.from)}
+			allAssigns = append(allAssigns, collectAssigns(w, pr, []*ssa.Function{u.fn})...)
+		}
+		for _, a := range allAssigns {
+			toRoot, fromRoot := unitRoots[a.fn][0], unitRoots[a.fn][1]
 			if len(a.target.Idx) != 1 {
 				continue
 			}
